@@ -94,12 +94,14 @@ static void checkInvariant(M& m)
 static void checkAgainstModel(M& m, const Model& md, bool addresses)
 {
   vf_assert(m.size() == md.n, "size() == model");
+  vf_trace(m.size());
   vf_assert(m.isEmpty() == (md.n == 0), "isEmpty() == model");
   unsigned i = 0;
   for(M::Iterator it = m.begin(); it != m.end(); ++it, ++i)
   {
     vf_assert(i < md.n, "iteration longer than model");
     vf_assert(it.key().v == md.k[i], "iteration key == model");
+    vf_trace((unsigned)it.key().v);
     vf_assert(*it == md.v[i], "iteration value == model");
     if(addresses) vf_assert((const void*)&*it == md.addr[i], "element address unchanged (C05)");
   }
